@@ -11,6 +11,8 @@ CHECKS['C05'] = dict(text='Bounded symbolic execution (z3) of the MIR of the who
              note='Paths end at pipe()/fork(), builtin bodies, the pest calculator parser and function bodies (other properties). Stubs: env::var, glob (pattern-respecting adversarial answer), command substitution output. Dev profile. A deterministic 1/8 share of the ok-leaves is validated against the native binary.', design='6/C05')
 CHECKS['C10'] = dict(text='Bounded symbolic execution (z3) of the MIR of shell::expand_env / env_in_token / expand_one_env for every token of <= 3 (thorough 4) segments over {literal, $A, ${A}, $AB, $B, ${B}, $?, $$, ${?}} with symbolic literal characters, symbolic variable values (<= 1, thorough 2 characters, arbitrary scalars) and quote tag; oracle: one left-to-right substitution pass, inserted text not rescanned; hangs via repeated-state detection.',
              note='expand_env is driven directly; literal characters exclude quotes/backquote/backslash/parentheses/digits (other word kinds). Known finding: values containing `$` are rescanned (fix-point loop). Every stub-free ok-leaf is validated against the native expand_env.', design='6/C10')
+CHECKS['C11'] = dict(text='Bounded symbolic execution (z3) of the MIR of do_command_substitution (both spellings, embedded and whole-token, two substitutions, unparsable inner command) with the real from_line for the inner command and a capture stub whose stdout is symbolic (<= 3, thorough 4 arbitrary characters incl. newline) plus <= 2 symbolic characters on each side; oracle: head + output-without-trailing-newlines + tail, exactly one invocation per substitution, termination.',
+             note='run_pipeline(capture) is stubbed; do_command_substitution is driven directly on one token. Every ok-leaf is validated by running the native function with a helper program that prints the model\'s output bytes. Known finding: two $(...) in one word.', design='6/C11')
 NA = {}
 ALL = ['C%02d' % i for i in range(1, 21)]
 m = dict(version=1, setup_cmd='./setup.sh',
